@@ -257,7 +257,27 @@ def reroot_uses(src, this_crate, all_crates):
     return src
 
 
-def _read_module(base, name, log, depth=0):
+def reduce_module(src, spec, label, report, log):
+    """spec: list of fn names, optionally followed by drop_use=<substr>[+<substr>] entries"""
+    keep_fns = [x for x in spec if not x.startswith('drop_use=')]
+    drops = [d for x in spec if x.startswith('drop_use=') for d in x[9:].split('+')]
+    msk = mask(src)
+    kept = []
+    for m in re.finditer(r'(?ms)^(?:pub )?use [^;]*;', src):
+        st = m.group(0)
+        if any(d in st for d in drops):
+            log.append('%s: use statement mentioning %s dropped' % (label, '/'.join(drops)))
+            continue
+        kept.append(st)
+    for name, s0, k, e, ind in fn_spans(src, msk):
+        if name in keep_fns and ind == '':
+            kept.append('#[verifier::external_body] /*vx:reduced-module: body dropped (unverified, refers to dropped items)*/\n' + src[s0:k] + '{ unimplemented!() }')
+            report.append('%s::%s (module reduced to this signature)' % (label, name))
+    log.append('%s: module reduced to fns %s (T8; all other items dropped)' % (label, ','.join(keep_fns)))
+    return '\n'.join(kept)
+
+
+def _read_module(base, name, log, depth=0, reduce=None, report=None, relpath=None):
     """read module `name` under directory base (name.rs or name/mod.rs), inlining nested `mod x;`"""
     p = os.path.join(base, name + '.rs')
     sub = os.path.join(base, name)
@@ -271,12 +291,16 @@ def _read_module(base, name, log, depth=0):
     log += ['%s: %s' % (os.path.relpath(p, base), x) for x in lg]
     recs = [(p, hashlib.sha256(raw.encode()).hexdigest())]
 
+    relpath = relpath or name
+    if reduce and relpath in reduce:
+        src = reduce_module(src, reduce[relpath], relpath, report if report is not None else [], log)
+
     def inl(mm):
         subname = mm.group(2)
         if subname in ('tests', 'test'):
             return ''
         try:
-            t, r = _read_module(sub, subname, log, depth + 1)
+            t, r = _read_module(sub, subname, log, depth + 1, reduce, report, relpath + '/' + subname)
         except Exception:
             return ''
         recs.extend(r)
@@ -310,31 +334,20 @@ def inline_crate(repo, arg, subs, unit):
             return mm.group(0) if mm.group(2) in included else ''
         lib = re.sub(r'(?ms)^(pub use )([\w#]+)(::.*?;\n)', keep_use, lib)
         # anything else in lib.rs (fns, impls) is dropped unless a `libitems` directive keeps it
-        lib = '\n'.join(l for l in lib.split('\n') if l.startswith('pub use ') or l.startswith('use '))
+        lib = '\n'.join(m.group(0) for m in re.finditer(r'(?ms)^(?:pub )?use [^;]*;', lib))
         parts.append(lib)
     files = []
     reduce = {}
     for s_ in subs:
         w = s_.split()
         if w[0] == 'reduce':
-            reduce[w[1]] = w[2].split(',')
+            reduce[w[1]] = w[2].split(',') + w[3:]
     subs = [s_ for s_ in subs if s_.split()[0] != 'reduce']
     for m in mods:
         modname, fname = (m.split(':') + [None])[:2]
         fname = fname or modname
-        src, r = _read_module(base, fname, log)
+        src, r = _read_module(base, fname, log, 0, reduce, report, fname)
         files += r
-        if fname in reduce:
-            # keep only `use` lines and the named fns (their bodies stay, but they become external_body): everything
-            # else in the module is dropped because Verus rejects it and no contract of the unit needs it
-            msk = mask(src)
-            kept = [l for l in src.split('\n') if re.match(r'(pub )?use ', l)]
-            for name, s0, k, e, ind in fn_spans(src, msk):
-                if name in reduce[fname] and ind == '':
-                    kept.append('#[verifier::external_body] /*vx:reduced-module: body dropped (unverified, refers to dropped items)*/\n' + src[s0:k] + '{ unimplemented!() }')
-                    report.append('%s::%s::%s (module reduced to this signature)' % (cname, modname, name))
-            src = '\n'.join(kept)
-            log.append('%s: module reduced to fns %s (T8; all other items dropped)' % (fname, ','.join(reduce[fname])))
         src, c = hoist_closure_patterns(src)
         if c:
             log.append('%s: %d closure parameter patterns hoisted (T5)' % (fname, c))
